@@ -1475,6 +1475,7 @@ func (n *FunctionNode) MarshalJSON() ([]byte, error) {
 	props := JSONNode{}.
 		Type("func").
 		SetFunctionType("functionType", n.Type).
+		Set("func", n.Func).
 		Set("args", n.Args)
 	return json.Marshal(&props)
 }
@@ -1485,11 +1486,18 @@ func (n *FunctionNode) unmarshal(props JSONNode) error {
 		return err
 	}
 
-	if n.Args, err = props.NodeList("args"); err != nil {
-		return err
+	// A function without arguments is marshaled with "args": null
+	if args, ok := props["args"]; ok && args != nil {
+		if n.Args, err = props.NodeList("args"); err != nil {
+			return err
+		}
 	}
 
 	if n.Type, err = props.FunctionType("functionType"); err != nil {
+		return err
+	}
+
+	if n.Func, err = props.String("func"); err != nil {
 		return err
 	}
 
